@@ -46,6 +46,10 @@ class C09(Property):
         cases = []
         k = 0
         while len(cases) < n:
+            if rng.random() < 0.1:
+                cases.append(self.split_case(rng, k))
+                k += 1
+                continue
             opts = self.gen_def(rng)
             for _ in range(3):
                 gid = "g%d" % k
@@ -114,8 +118,48 @@ class C09(Property):
                                           tags={"role": "keydd", "group": gid}))
         return cases
 
+    @staticmethod
+    def split_case(rng, k):
+        """The documented way to split the words of a line at the separator: a `non_strict` positional under
+        many/optional/fallback takes the words on the left, `strict().many()` the words on the right."""
+        names = gen.Names(rng)
+        sw = gen.flag(names.named())
+        w = rng.choice(["many", "many", "optional", "fallback"])
+        a = gen.pos("A", rng.choice(["string", "osstring"]), "nonstrict")
+        if w == "many":
+            first, nl = gen.wrap("many", a), rng.choice([0, 1, 2, 3])
+        elif w == "optional":
+            first, nl = gen.wrap("optional", a), rng.choice([0, 1])
+        else:
+            first, nl = gen.wrap("fallback", a, v=gen.vbytes(b"dflt"), show=False), rng.choice([0, 1])
+        rest = gen.wrap("many", gen.pos("B", rng.choice(["string", "osstring"]), "strict"))
+        opts = gen.options(gen.con(sw, first, rest), descr="Lsplit")
+        nr = rng.choice([0, 1, 1, 2, 3])
+        left = [b"W%dq" % i for i in range(nl)]
+        right = [rng.choice([b"W%dq" % (nl + i), b"W%dq" % (nl + i), rng.choice(DASHY)]) for i in range(nr)]
+        if rng.random() < 0.4:
+            left.insert(rng.randrange(0, len(left) + 1), gen.spell_flag(rng, sw))
+        argv = left + [b"--"] + right
+        lw = [x for x in left if x.startswith(b"W")]
+        if w == "many":
+            fv = gen.vlist([hexb(x) for x in lw])
+        elif w == "optional":
+            fv = "(some %s)" % hexb(lw[0]) if lw else "none"
+        else:
+            fv = hexb(lw[0]) if lw else hexb(b"dflt")
+        want = gen.vtuple(["true" if len(left) != len(lw) else "false", fv, gen.vlist([hexb(x) for x in right])])
+        return Case("g%dz" % k, opts, argv, tags={"role": "split", "group": "g%dz" % k, "want": want, "wrap": w})
+
     def judge(self, cases, model, impl):
         out, base, nontrivial, dist = [], {}, [], {}
+        for c in cases:
+            if c.tags.get("role") == "split":
+                nontrivial.append(c.line())
+                ic = impl.get(c.id)
+                if compare.impl_class(ic) != "OK" or ic[1] != c.tags["want"]:
+                    out.append(Finding("violation", c, "a non_strict positional under `%s` followed by strict().many() must split the "
+                                                       "words at `--`: expected OK %s, got %s"
+                                       % (c.tags["wrap"], c.tags["want"], common.show(ic))))
         for c in cases:
             r = compare.agree_class_value(model.get(c.id), impl.get(c.id))
             if r:
